@@ -449,7 +449,9 @@ def tuples_to_lists(x):
 def impl_load(path):
     """(accepted?, dump or exception text)"""
     try:
-        sc = nasim.load_scenario(path)
+        impl_load.n = getattr(impl_load, "n", 0) + 1
+        # alternately through the package's top-level entry point (nasim.load builds the environment around the scenario)
+        sc = nasim.load(path).scenario if impl_load.n % 2 else nasim.load_scenario(path)
     except BaseException as e:       # any error is a rejection
         if isinstance(e, (KeyboardInterrupt, SystemExit)):
             raise
